@@ -1911,7 +1911,8 @@ def run(chk: core.Check) -> None:
             if 'lazy' in kw['kinds']:
                 need |= {'CallArg', 'ResumeLazy'} | ({'LeaveHolding'} if variant == 'pinned' else {'EvalArgs'})
             missing = need - seen - ({'Resume', 'Abandon', 'Yield', 'Return', 'ExitGen'} if 'gen' not in kw['kinds'] else set()) \
-                - (set() if 'cp' in kw['colls'] else {'Enter0'})
+                - (set() if 'cp' in kw['colls'] else {'Enter0'}) \
+                - (set() if 'cp' in kw['colls'] or variant == 'property' else {'ExitGen', 'Yield', 'Return'})
             if missing:
                 raise tla.MachineryError(f'graph-{name}-{variant}: actions never fired: {sorted(missing)} (vacuous model)')
         jobs = []
